@@ -280,7 +280,7 @@ def shards(tier):
 
 def run_shard(spec, seed, tier):
     res = ShardResult()
-    n = 40 if tier == "quick" else 300
+    n = 100 if tier == "quick" else 1000
     hyp.search(res, st_case(spec["scheme"]), body, seed, n)
     return res
 
